@@ -445,7 +445,9 @@ compute_image_info (pixman_image_t *image)
     case BITS:
 	if (image->bits.width == 1	&&
 	    image->bits.height == 1	&&
-	    image->common.repeat != PIXMAN_REPEAT_NONE)
+	    image->common.repeat != PIXMAN_REPEAT_NONE &&
+	    image->common.filter != PIXMAN_FILTER_CONVOLUTION &&
+	    image->common.filter != PIXMAN_FILTER_SEPARABLE_CONVOLUTION)
 	{
 	    code = PIXMAN_solid;
 	}
